@@ -2,7 +2,7 @@
 import ast
 import os
 
-from .normal import Normalizer, Unsupported, first_diff, show
+from .normal import Normalizer, Unsupported, first_diff, show, Inlining
 from .mrspec import SHAPES
 from .model import AnalysisError
 
@@ -31,6 +31,31 @@ def toplevel_names(tree):
     return out
 
 
+N_RULE_HELPERS = {'Norm', 'SafeTrace', 'SafeCopy', 'SafeDot', 'MatMul', 'SafeClip'}
+_REF = {}
+
+
+def ref_funcs():
+    if 'f' not in _REF:
+        with open(REF_PATH) as f:
+            tree = ast.parse(f.read())
+        _REF['f'] = (toplevel_funcs(tree), toplevel_names(tree))
+    return _REF['f']
+
+
+def port_private(port_names):
+    """names of port-module functions that are not part of the reference API (helpers a maintainer extracted)"""
+    ref = set(ref_funcs()[0])
+    return {n for n in port_names if n not in ref and n not in N_RULE_HELPERS}
+
+
+def port_normalizer(node, port, port_globals, nref, which):
+    nz = Normalizer(node, SHAPES, port.keys(), nref, helper_rules=True, global_names=port_globals)
+    if which is not None:
+        nz.inliner = Inlining(port, SHAPES, port.keys(), True, port_globals, which)
+    return nz
+
+
 def compare_all(model):
     """-> (results, ref_funcs, port_funcs); results: name -> dict(verdict, detail, port_line, ref_line, rewrites)"""
     with open(REF_PATH) as f:
@@ -47,17 +72,32 @@ def compare_all(model):
             continue
         pnode = port[name]
         res = {'port_line': pnode.lineno, 'ref_line': rnode.lineno}
+        priv = port_private(port.keys())
         try:
             rn = Normalizer(rnode, SHAPES, ref.keys(), None, helper_rules=False, global_names=ref_globals)
             rt = rn.run()
-            pn = Normalizer(pnode, SHAPES, port.keys(), len(rn.params), helper_rules=True, global_names=port_globals)
+            pn = port_normalizer(pnode, port, port_globals, len(rn.params), (lambda n_: n_ in priv))
             pt = pn.run()
         except Unsupported as e:
             res.update(verdict='UNCOVERED', detail=str(e))
             results[name] = res
             continue
+        if rt != pt:
+            # second opinion: the same comparison with every loop-free, effect-free helper inlined on BOTH sides (a helper that was
+            # extracted, merged or inlined by hand changes the call structure, not the value)
+            try:
+                rn2 = Normalizer(rnode, SHAPES, ref.keys(), None, helper_rules=False, global_names=ref_globals)
+                rn2.inliner = Inlining(ref, SHAPES, ref.keys(), False, ref_globals, lambda n_: True)
+                rt2 = rn2.run()
+                pn2 = port_normalizer(pnode, port, port_globals, len(rn.params), (lambda n_: n_ not in N_RULE_HELPERS))
+                pt2 = pn2.run()
+                if rt2 == pt2:
+                    rt, pt = rt2, pt2
+                    res['inlined'] = sorted(rn2.inliner.used | pn2.inliner.used)
+            except Unsupported:
+                pass
         if rt == pt:
-            res.update(verdict='EQUIVALENT', detail='')
+            res.update(verdict='EQUIVALENT', detail='' if 'inlined' not in res else 'equal after inlining ' + ', '.join(res['inlined']))
         else:
             d = first_diff(pt, rt)
             res.update(verdict='DIFFERENT', detail='port: %s  |  reference: %s' % (show(d[0]), show(d[1])),
@@ -77,6 +117,27 @@ def _strip(node):
 _NF_CACHE = {}
 
 
+def _normalizer(model, pm, node, name, prune=True):
+    """Normalizer for a function of repo module `pm` with the module's private helpers (functions that are not part of the
+    reference API) inlined - the same configuration for repository functions and for the reference implementations written in rules."""
+    funcs = toplevel_funcs(pm.tree)
+    known = set(funcs)
+    allf = dict(funcs)
+    for star in pm.stars:
+        if star in model.modules:
+            sf = toplevel_funcs(model.modules[star].tree)
+            known |= set(sf)
+            for k_, v_ in sf.items():
+                allf.setdefault(k_, v_)
+    gl = toplevel_names(pm.tree)
+    nz = Normalizer(node, SHAPES, known, None, True, gl)
+    nz.prune_loops = prune
+    priv = port_private(allf.keys())
+    if priv:
+        nz.inliner = Inlining(allf, SHAPES, known, True, gl, lambda n_: n_ in priv and n_ != name)
+    return nz
+
+
 def port_nf(model, name, module=PORT_MOD, prune=True):
     """Normal form ('fn', effects, value) of a top-level function of a repo module (cached per model digest)."""
     key = (model.digest, module, name, prune)
@@ -91,8 +152,7 @@ def port_nf(model, name, module=PORT_MOD, prune=True):
     for star in pm.stars:
         if star in model.modules:
             known |= set(toplevel_funcs(model.modules[star].tree))
-    nz = Normalizer(funcs[name], SHAPES, known, None, True, toplevel_names(pm.tree))
-    nz.prune_loops = prune
+    nz = _normalizer(model, pm, funcs[name], name, prune)
     try:
         t = nz.run()
     except Unsupported as e:
@@ -201,8 +261,7 @@ def matches_spec(model, module, name, spec_src, prune=True):
     if len(fn) != 1:
         raise AnalysisError('spec for %s must define exactly one function' % name)
     fn[0].name = name                      # same shape contracts / recursion naming as the repo function
-    sz = Normalizer(fn[0], SHAPES, known, None, True, toplevel_names(pm.tree))
-    sz.prune_loops = prune
+    sz = _normalizer(model, pm, fn[0], name, prune)
     try:
         s = sz.run()
     except Unsupported as e:
@@ -233,8 +292,7 @@ def func_nf(model, fi, prune=True):
     for star in pm.stars:
         if star in model.modules:
             known |= set(toplevel_funcs(model.modules[star].tree))
-    nz = Normalizer(fi.node, SHAPES, known, None, True, toplevel_names(pm.tree))
-    nz.prune_loops = prune
+    nz = _normalizer(model, pm, fi.node, fi.node.name, prune)
     try:
         t = nz.run()
     except Unsupported as e:
@@ -257,8 +315,7 @@ def fi_matches_spec(model, fi, spec_src, prune=True):
     if len(fn) != 1:
         raise AnalysisError('spec for %s must define exactly one function' % fi.qualname)
     fn[0].name = fi.node.name
-    sz = Normalizer(fn[0], SHAPES, known, None, True, toplevel_names(pm.tree))
-    sz.prune_loops = prune
+    sz = _normalizer(model, pm, fn[0], fi.node.name, prune)
     try:
         s = sz.run()
     except Unsupported as e:
